@@ -4,7 +4,9 @@
           22 = C03_export: the exported file does not load as a float64 array of the declared shape
           23 = C03_export / C03_iter: the loaded values are not the windows x factor in spike order
           24 = C03_store: a store look-up is not the (scaled) window on the stored channels
-          25 = TemplateModel.get_waveforms is not the window (integration route)
+          25 = TemplateModel.get_waveforms is not the window (integration route): with a store holding the
+               queried ids, the scaled window on the stored channels (as 24); otherwise, with raw data, the
+               windows at spike_samples[spike_ids] (as 21)
           3  = input outside the stated regime (harness bug)
    Sample values are the integers 10*row + col + 1 (never 0, so padding is visible); exported and
    looked-up values are compared multiplied by 2 (the factors are multiples of 1/2), so everything
@@ -23,6 +25,9 @@ Inductive chunking :=
 | Flat (sizes : list Z) (cs : Z)
 | Mts (cb : list Z) (bs : Z).
 
+(* a spike-subset store as it is on disk: how its waveforms were exported, ids, channel table, factor *)
+Record mstore := mkms { ms_ch : chunking; ms_ids : list Z; ms_table : list (list Z); ms_k : fkind; ms_f2 : Z }.
+
 Inductive input :=
 (* extract_waveforms(traces, samples, chans, n) *)
 | InExtract (nr nc : Z) (samples : list Z) (n : Z) (chans : list Z)
@@ -33,13 +38,20 @@ Inductive input :=
           (ids q_ids q_ch : list Z)
 (* TemplateModel.get_waveforms(spike_ids, channel_ids) on a dataset whose raw data is gen_data and
    whose spike samples are [samples]; with_store: answered from the exported subset store *)
-| InModelRaw (nr nc : Z) (samples : list Z) (n : Z) (q_ids q_ch : list Z).
+| InModelRaw (nr nc : Z) (samples : list Z) (n : Z) (q_ids q_ch : list Z)
+(* TemplateModel(dir).get_waveforms(q_ids, q_ch) on a dataset directory: spike samples [samples] (spike id =
+   index), raw data gen_data given to the model iff has_raw, and optionally a spike-subset store
+   (_phy_spikes_subset.*.npy) exported by phylib itself from the model's traces: ids, channel table, unit
+   factor; [q_ch = None] = channel_ids omitted.  Values are compared multiplied by 2. *)
+| InModel (nr nc : Z) (samples : list Z) (n : Z) (has_raw : bool) (st : option mstore)
+          (q_ids : list Z) (q_ch : option (list Z)).
 
 Inductive observed :=
 | ObsWaves (shape : list Z) (w : list (list (list Z)))
 | ObsFile (dt : dtype) (shape : list Z) (w : list (list (list Z)))
 | ObsUnloadable
 | ObsCrash
+| ObsNone
 | ObsMany (l : list observed).
 
 Record case := { cid : Z; cin : input; cobs : observed }.
@@ -66,6 +78,8 @@ Definition chunking_ok (nr : Z) (ch : chunking) : bool :=
 Definition nodupb (l : list Z) : bool :=
   (fix go (l : list Z) := match l with [] => true | x :: r => negb (memZ x r) && go r end) l.
 
+Definition distinct_real_b (q : list Z) : bool := nodupb (filter (fun c => negb (c =? -1)) q).
+
 Fixpoint pos_of (x : Z) (l : list Z) (i : Z) : option Z :=
   match l with [] => None | y :: r => if x =? y then Some i else pos_of x r (i + 1) end.
 
@@ -81,6 +95,60 @@ Definition model_export (nr nc : Z) (ch : chunking) (spikes : list spike) (n w :
   | None => None
   | Some chunks => export 0 (scaleZ f2) (gen_data nr nc) n chunks spikes w k
   end.
+
+(* ---- TemplateModel.get_waveforms on a dataset directory ---- *)
+Definition gen_data2 (nr nc : Z) : list (list Z) := map (map (Z.mul 2)) (gen_data nr nc).
+Definition ms_spikes (samples : list Z) (ms : mstore) : list spike :=
+  map (fun p => mkspike (nthZ samples (fst p)) (snd p)) (combine (ms_ids ms) (ms_table ms)).
+Definition ms_width (ms : mstore) : Z := match ms_table ms with r :: _ => zlen r | [] => 0 end.
+
+Definition ms_regime (nr nc : Z) (samples : list Z) (n : Z) (ms : mstore) : bool :=
+  (zlen (ms_ids ms) =? zlen (ms_table ms)) && (2 <=? zlen (ms_ids ms)) && (2 <=? ms_width ms) &&
+  forallb (fun x => (0 <=? x) && (x <? zlen samples)) (ms_ids ms) && nodupb (ms_ids ms) &&
+  export_regime nr nc (ms_ch ms) (ms_spikes samples ms) n (ms_width ms) (ms_f2 ms).
+
+(* the store object the model finds on disk, as the model of export + np.load predicts it *)
+Definition model_store (nr nc : Z) (samples : list Z) (n : Z) (ms : mstore) : option (store (A := Z)) :=
+  match model_export nr nc (ms_ch ms) (ms_spikes samples ms) n (ms_width ms) (ms_k ms) (ms_f2 ms) with
+  | Some f => option_map (mkstore (ms_ids ms) (ms_table ms)) (np_load f)
+  | None => None
+  end.
+
+Definition route_chansZ (nc : Z) (q_ch : option (list Z)) : list Z :=
+  match q_ch with Some l => l | None => zrange 0 (Z.to_nat nc) end.
+
+(* clause 25 on an observed array *)
+Definition model_spec_b (nr nc : Z) (samples : list Z) (n : Z) (has_raw : bool) (st : option mstore)
+                        (q_ids : list Z) (q_ch : option (list Z)) (shape : list Z)
+                        (arr : list (list (list Z))) : bool :=
+  let chans := route_chansZ nc q_ch in
+  let via_store := match st with
+                   | Some ms => forallb (fun x => memZ x (ms_ids ms)) q_ids
+                   | None => false
+                   end in
+  zl_eqb shape [zlen q_ids; n; zlen chans] &&
+  (if via_store then
+     match st with
+     | Some ms => match mapM (fun x => pos_of x (ms_ids ms) 0) q_ids with
+                  | Some q_pos => negb (distinct_real_b chans) ||
+                                  store_spec_b (scaleZ (ms_f2 ms)) (gen_data nr nc) n (ms_spikes samples ms) q_pos chans arr
+                  | None => false
+                  end
+     | None => false
+     end
+   else match mapM (py_nth samples) q_ids with
+        | Some ss => extract_spec_b (gen_data2 nr nc) ss n chans arr
+        | None => false
+        end).
+
+(* does the property claim an array for this input?  (otherwise None / an exception are the modelled
+   outcomes and only equality with the model is judged) *)
+Definition model_claims (samples : list Z) (has_raw : bool) (st : option mstore) (q_ids : list Z) : bool :=
+  match st with
+  | Some ms => forallb (fun x => memZ x (ms_ids ms)) q_ids
+  | None => false
+  end ||
+  (has_raw && forallb (fun x => (- zlen samples <=? x) && (x <? zlen samples)) q_ids).
 
 (* codes of one observation *)
 Fixpoint check_obs (i : input) (o : observed) : list Z :=
@@ -119,7 +187,7 @@ Fixpoint check_obs (i : input) (o : observed) : list Z :=
   | InStore nr nc ch spikes n w k f2 ids q_ids q_ch =>
       if negb (export_regime nr nc ch spikes n w f2 && (zlen ids =? zlen spikes) && nodupb ids &&
                forallb (fun x => 0 <=? x) ids && forallb (fun x => memZ x ids) q_ids &&
-               chans_ok_b nc q_ch && (1 <=? zlen q_ch) && nodupb (filter (fun c => negb (c =? -1)) q_ch))
+               chans_ok_b nc q_ch && (1 <=? zlen q_ch))
       then [3] else
       match o with
       | ObsWaves shape arr =>
@@ -131,8 +199,11 @@ Fixpoint check_obs (i : input) (o : observed) : list Z :=
                               end
                   | None => false
                   end) ++
+          (* a channel queried twice is outside the claim (C03_store_masked, C03_ex_store_dup): only the
+             shape is judged then, the values by equality with the model alone *)
           flag 24 (match mapM (fun x => pos_of x ids 0) q_ids with
-                   | Some q_pos => store_spec_b (scaleZ f2) (gen_data nr nc) n spikes q_pos q_ch arr &&
+                   | Some q_pos => (negb (distinct_real_b q_ch) ||
+                                    store_spec_b (scaleZ f2) (gen_data nr nc) n spikes q_pos q_ch arr) &&
                                    zl_eqb shape [zlen q_ids; n; zlen q_ch]
                    | None => false
                    end)
@@ -147,6 +218,32 @@ Fixpoint check_obs (i : input) (o : observed) : list Z :=
           flag 1 (opt_waves_eqb (extract_waveforms 0 (gen_data nr nc) ss n q_ch) w) ++
           flag 25 (extract_spec_b (gen_data nr nc) ss n q_ch w && zl_eqb shape [zlen q_ids; n; zlen q_ch])
       | _, _ => [1; 25]
+      end
+  | InModel nr nc samples n has_raw st q_ids q_ch =>
+      let chans := route_chansZ nc q_ch in
+      if negb ((1 <=? nr) && (2 <=? nc) && (2 <=? n) && (2 <=? zlen samples) && sortedZb samples &&
+               forallb (fun s => (0 <=? s) && (s <? nr)) samples &&
+               chans_ok_b nc chans && (1 <=? zlen chans) &&
+               match st with Some ms => ms_regime nr nc samples n ms | None => true end) then [3] else
+      match (match st with
+             | Some ms => match model_store nr nc samples n ms with Some s => Some (Some s) | None => None end
+             | None => Some None
+             end) with
+      | None => [3]                                   (* the model of the export fails inside the regime *)
+      | Some mst =>
+          let expected := model_get_waveforms 0 (if has_raw then Some (gen_data2 nr nc) else None) mst
+                                              samples n nc q_ids q_ch in
+          let claims := model_claims samples has_raw st q_ids in
+          match o with
+          | ObsWaves shape arr =>
+              flag 1 (match expected with GwOut w => waves_eqb w arr | _ => false end) ++
+              flag 25 (negb claims || model_spec_b nr nc samples n has_raw st q_ids q_ch shape arr)
+          | ObsNone =>
+              flag 1 (match expected with GwNone => true | _ => false end) ++ flag 25 (negb claims)
+          | ObsCrash =>
+              flag 1 (match expected with GwError => true | _ => false end) ++ flag 25 (negb claims)
+          | _ => [1; 25]
+          end
       end
   end
   end.
